@@ -64,13 +64,18 @@ def batches(draw):
     # twins: a later entry that is an exact copy of an earlier game, or the same game with ONE fault
     # (container-type faults first: they survive most serialisations)
     for j in range(1, k):
-        what = draw(st.integers(0, 7))
-        if what > 2:
+        what = draw(st.integers(0, 8))
+        if what > 3:
             continue
         i = draw(st.integers(0, j - 1))
         if entries[i]["kind"] != "stopping":
             continue
-        if what == 0:
+        if what == 3:
+            # a sibling: the same transition lists and final states, the owners of the player states flipped
+            sib = copy.deepcopy(entries[i]["game"])
+            sib["players"] = [P2 if p == P1 else P1 if p == P2 else p for p in sib["players"]]
+            entries[j] = dict(kind="stopping", game=sib, twin_of=i)
+        elif what == 0:
             entries[j] = dict(kind="stopping", game=copy.deepcopy(entries[i]["game"]), twin_of=i)
         else:
             fl = list(faults(entries[i]["game"]))
@@ -104,6 +109,11 @@ def solo(game, prune, facts):
         out["n_transitions"] = r.tad.StochasticGame(**copy.deepcopy(game)).count_transitions()
     except Exception:
         out["n_transitions"] = None     # not comparable
+    # the reference must be what solving this game ALONE gives: solve an unrelated tiny game first, so that
+    # nothing a previous solve may have left behind in the process (a one-slot memo, say) is inherited
+    from harness.sut import solve as _solve
+    from props.c09 import GOOD_B
+    _solve(GOOD_B, True, sweeps=1000)
     if facts is not None:
         a = Solved(facts, prune)
         o = a.outcome
